@@ -54,7 +54,7 @@ func checkC18(c *Ctx) {
 		var lockSites []ssa.Instruction
 		nStores := 0
 		badLock := false
-		lm := p.lockAnalysisRW("app", "runtimeState", "mu", reachE)
+		lm := p.lockAnalysisRW("app", "runtimeState", p.mutexField("app", "runtimeState"), reachE)
 		for fn := range reachE {
 			for _, ci := range allCalls(fn, func(ci ssa.CallInstruction) bool { return isRuntimeStateLock(ci, true) }) {
 				if _, isDefer := ci.(*ssa.Defer); !isDefer {
